@@ -26,6 +26,8 @@ struct Doc {
   layout: String,
   /// does another module besides Lib export Foo in this scenario?
   two_exporters: bool,
+  /// path of the module that exports `Foo`, `Bar`, `IFoo` (default `Lib`)
+  exporter: &'static str,
   /// last existing import (if any) ends with `;`
   last_import_has_semicolon: Option<bool>,
   imports: usize,
@@ -127,6 +129,7 @@ fn documents() -> Vec<Doc> {
                   text: t,
                   layout: format!("imports={order:?} semis={semis:b} sep={sep:?} comment={comment} lead={lead:?} body={bname} exporters={}", if two { 2 } else { 1 }),
                   two_exporters: two,
+                  exporter: "Lib",
                   last_import_has_semicolon: if n == 0 { None } else { Some(semis & (1 << (n - 1)) != 0) },
                   imports: n,
                 });
@@ -156,6 +159,7 @@ fn documents() -> Vec<Doc> {
             text: t,
             layout: format!("size-ladder imports={n_imports} toplevels={n_classes} body={bodies_kind} exporters={}", if two { 2 } else { 1 }),
             two_exporters: two,
+            exporter: "Lib",
             last_import_has_semicolon: Some(semi),
             imports: n_imports,
           });
@@ -163,6 +167,22 @@ fn documents() -> Vec<Doc> {
       }
     }
   }
+  // the exporting module under other paths: several segments, and paths the compiler knows by itself
+  // (`std.tuples` is where tuple literals live, `std.option` / `std.list` are ordinary std modules);
+  // for the plain documents with at most one import
+  let variants: Vec<Doc> = docs
+    .iter()
+    .filter(|d| d.imports <= 1 && !d.two_exporters && !d.layout.starts_with("size-ladder") && d.layout.contains("comment=none"))
+    .flat_map(|d| {
+      ["Deep.Nested.Lib", "std.tuples", "std.option", "std.list"].into_iter().map(|e| {
+        let mut d2 = d.clone();
+        d2.exporter = e;
+        d2.layout = format!("{} exporter={e}", d.layout);
+        d2
+      })
+    })
+    .collect();
+  docs.extend(variants);
   docs
 }
 
@@ -175,7 +195,7 @@ struct World {
 fn build(doc: &Doc, history: u8) -> World {
   let mut heap = Heap::new();
   let main = mod_ref(&mut heap, "Main");
-  let lib = mod_ref(&mut heap, "Lib");
+  let lib = mod_ref(&mut heap, doc.exporter);
   let lib2 = mod_ref(&mut heap, "Lib2");
   let other = mod_ref(&mut heap, "Other");
   let mut sources = HashMap::new();
@@ -433,7 +453,7 @@ fn main() {
           }
           // the other classes / interfaces the workspace exports: an item that carries edits must import
           // the class it is labelled with (from the module that exports it)
-          if let Some((_, module)) = [("Bar", "Lib"), ("IFoo", "Lib"), ("A", "Other"), ("B", "Other")].iter().find(|(l, _)| *l == item.label) {
+          if let Some((_, module)) = [("Bar", doc.exporter), ("IFoo", doc.exporter), ("A", "Other"), ("B", "Other")].iter().find(|(l, _)| *l == item.label) {
             if !item.additional_edits.is_empty() && doc.imports <= 3 {
               completions_checked.fetch_add(1, Ordering::Relaxed);
               if let Some((sig, msg)) = check_edits_for(&w, doc, &item.additional_edits, module, &item.label, "completion") {
@@ -444,7 +464,7 @@ fn main() {
           if item.label == "Foo" && !item.additional_edits.is_empty() {
             completions_checked.fetch_add(1, Ordering::Relaxed);
             // the item does not say which module it imports from: accept either exporter
-            let mut res = check_edits(&w, doc, &item.additional_edits, "Lib", "completion");
+            let mut res = check_edits(&w, doc, &item.additional_edits, doc.exporter, "completion");
             if res.is_some() && doc.two_exporters {
               let alt = check_edits(&w, doc, &item.additional_edits, "Lib2", "completion");
               if alt.is_none() {
